@@ -92,6 +92,44 @@ type knownFile struct {
 	Fixed []string `json:"fixed"`
 }
 
+// KnownMatcher returns the matcher of the listed known findings of one property (exact key, prefix ending in '*',
+// or "re:<regexp>"). A missing or unreadable file lists nothing.
+func KnownMatcher(file, prop string) func(key string) (string, bool) {
+	var kf knownFile
+	if b, err := os.ReadFile(file); err == nil {
+		json.Unmarshal(b, &kf)
+	}
+	type ent struct {
+		key, what string
+		re        *regexp.Regexp
+	}
+	var ents []ent
+	for _, k := range kf.Findings {
+		if k.Property != prop {
+			continue
+		}
+		e := ent{key: k.Key, what: k.What}
+		if strings.HasPrefix(k.Key, "re:") {
+			e.re, _ = regexp.Compile(strings.TrimPrefix(k.Key, "re:"))
+		}
+		ents = append(ents, e)
+	}
+	return func(key string) (string, bool) {
+		for _, k := range ents {
+			if k.re != nil {
+				if k.re.MatchString(key) {
+					return k.key + " " + k.what, true
+				}
+				continue
+			}
+			if k.key == key || (strings.HasSuffix(k.key, "*") && strings.HasPrefix(key, strings.TrimSuffix(k.key, "*"))) {
+				return k.key + " " + k.what, true
+			}
+		}
+		return "", false
+	}
+}
+
 type violRec struct {
 	Key  string
 	Msg  string
@@ -170,6 +208,7 @@ func Supervise(prop, tier string, seed int64) int {
 		env := append(os.Environ(),
 			"VERIF_EVENTS="+events, "VERIF_SCRATCH="+stScratch,
 			"VERIF_TIER="+tier, "VERIF_SEED="+strconv.FormatInt(seed, 10), "VERIF_PROP="+prop,
+			"VERIF_KNOWN="+filepath.Join(root, "known_findings.json"),
 			"GOFLAGS=-mod=mod", "GOPROXY=off")
 		env = append(env, st.Env...)
 		raceLog := filepath.Join(stScratch, "race")
@@ -299,26 +338,7 @@ func Supervise(prop, tier string, seed int64) int {
 	}
 
 	// known findings
-	var kf knownFile
-	if b, err := os.ReadFile(filepath.Join(root, "known_findings.json")); err == nil {
-		json.Unmarshal(b, &kf)
-	}
-	isKnown := func(key string) (string, bool) {
-		for _, k := range kf.Findings {
-			if k.Property != prop {
-				continue
-			}
-			if k.Key == key || (strings.HasSuffix(k.Key, "*") && strings.HasPrefix(key, strings.TrimSuffix(k.Key, "*"))) {
-				return k.Key + " " + k.What, true
-			}
-			if strings.HasPrefix(k.Key, "re:") {
-				if ok, _ := regexp.MatchString(strings.TrimPrefix(k.Key, "re:"), key); ok {
-					return k.Key + " " + k.What, true
-				}
-			}
-		}
-		return "", false
-	}
+	isKnown := KnownMatcher(filepath.Join(root, "known_findings.json"), prop)
 	replayDir := filepath.Join(root, "replay", prop)
 	os.MkdirAll(replayDir, 0o755)
 	knownSeen := map[string]int{}
